@@ -63,7 +63,7 @@ def exec_job(job):
             except Exception as ex:  # noqa
                 e["re_exc"] = core.exc_name(ex)
         elif a == "Proto":
-            e.update(inp=optok(job["inp"]), number=0, line=optok("0"), pname="", re_exc="", re_number=0)
+            e.update(inp=optok(job["inp"]), number=0, line=optok("0"), pname="", re_exc="", re_number=0, ace_exc="", ace_number=0, ace_line=optok("0"))
             kw = dict(platform=job["plat"], protocol_nr=job["nr"], has_port=job["has_port"])
             p = Protocol(job["inp"], **kw)
             e["number"], e["line"], e["pname"] = p.number, optok(p.line), p.name
@@ -71,6 +71,11 @@ def exec_job(job):
                 e["re_number"] = Protocol(p.line, **kw).number
             except Exception as ex:  # noqa
                 e["re_exc"] = core.exc_name(ex)
+            try:    # the same spelling as the protocol of an entry (the ACE line parser must accept it back too)
+                ace = Ace(f"permit {p.line} any any", platform=job["plat"], protocol_nr=job["nr"])
+                e["ace_number"], e["ace_line"] = ace.protocol.number, optok(ace.line.split()[1])
+            except Exception as ex:  # noqa
+                e["ace_exc"] = core.exc_name(ex)
         elif a == "Split":
             e.update(items=[], flags=[], logs=[])
             ace = Ace(f"permit {job['proto']} any any eq {job['name']} ack log", platform=job["plat"], version=job["ver"])
